@@ -149,10 +149,27 @@ def run(prog, R):
                             ok = False
                             s_ = f"num_params is not the length of the bound parameter list: {w1}; " + s_
                     R.ob("C09.4-subroutine-signature", "SubroutineDef{num_params <- typed params, return_type <- return signature | Void}", ok, s2s.at, s_[:260])
+    # a qubit declaration records a register of the written length exactly when a length is written: the recorded
+    # type is QubitArray(D1(w)) on the paths where designator_to_asg gave Some(w) and Qubit where it gave None, and
+    # no other test (e.g. on the value of w) takes part
+    rows_q = set()
+    for p in ps:
+        if "__diverged__" in p.env or arm_of(prog, p, STMT_ENUM, "stmt") != "QuantumDeclarationStatement":
+            continue
+        nb = [c for c in p.calls if c[0].endswith("Context::new_binding")]
+        if not nb:
+            continue
+        ty = show(deep_strip(nb[-1][1][2]))
+        cs = tuple(sorted((show(t)[:90], str(c)) for t, c in conds_of(p) if "designator_to_asg" in show(t)))
+        rows_q.add((ty[:110], cs))
+    okq = bool(rows_q) and all((ty.startswith("Type::QubitArray(ArrayDims::D1(") and "designator_to_asg(" in ty and len(cs) == 1 and cs[0][0].startswith("discr(designator_to_asg(") and cs[0][1] == "('eq', 1)")
+                               or (ty == "Type::Qubit" and len(cs) == 1 and cs[0][0].startswith("discr(designator_to_asg(") and cs[0][1] == "('eq', 0)") for ty, cs in rows_q) and len(rows_q) == 2
+    R.ob("C09.1-qubit-register-length", "QubitArray(D1(w)) iff a length w is written, Qubit otherwise", okq, s2s.at,
+         f"{len(rows_q)} rows" if okq else f"the recorded type of a qubit declaration also depends on other tests: {sorted(rows_q)[:3]} (`qubit[1] q;` must be a register of length one)")
     import C07
     C07.return_type_scope(prog, R, "C09.4-return-type-scope")
     R.premises(prog, "C09.2-designator-lookup-premise", ["C19:C19.3-"], "an identifier used as a width or length is resolved by SymbolTable::lookup: the innermost visible binding (a shadowing const of another value must win)")
-    R.premises(prog, "C09.5-scope-premise", ["C07:C07.1-", "C07:C07.2-"], "every declaration records its written type in the scope it is written in: each body (then / else / loop / case / default / gate / def) is translated in a scope of its own")
+    R.premises(prog, "C09.5-scope-premise", ["C07:C07.1-", "C07:C07.2-", "C07:C07.3-"], "every declaration records its written type in the scope it is written in: each body (then / else / loop / case / default / gate / def) is translated in a scope of its own")
     R.premises(prog, "C09.2-literal-value-premise", ["C10:C10.2-", "C10:C10.3-", "C10:C10.4-digit-string"],
                "a literal width / register length reaches the symbol table through IntNumber::value(): its radix, digit string and sibling agreement are C10's obligations")
     # ---- C09.2 no unchecked narrowing cast
